@@ -33,7 +33,7 @@ func ServerInfo() serverInfo { return serverInfo{uuid.New(), uuid.New()} }
 type NopTaskStore struct{}
 
 func (NopTaskStore) SaveSnapshot(string, *kapacitor.TaskSnapshot) error { return nil }
-func (NopTaskStore) HasSnapshot(string) bool                           { return false }
+func (NopTaskStore) HasSnapshot(string) bool                            { return false }
 func (NopTaskStore) LoadSnapshot(string) (*kapacitor.TaskSnapshot, error) {
 	return nil, errors.New("not implemented")
 }
